@@ -165,8 +165,22 @@ func genEexecPlain(c *rt.C, env *psEnv, full []poolItem) ([]byte, bool) {
 	return out.Bytes(), hasBin
 }
 
+var errDictStackFull = fmt.Errorf("dictstackoverflow: no room for the system dictionary")
+
+// probeDictStackLimit returns the dictionary-stack depth at which begin
+// refuses to push (found by running the library, not a pinned constant).
+func probeDictStackLimit() int {
+	intp := postscript.NewInterpreter()
+	intp.MaxOps = 100000
+	intp.ExecuteString("{ 1 dict begin } loop")
+	return len(intp.DictStack)
+}
+
+var dictStackLimit int
+
 func runC05(r *rt.Runner) {
 	env := newPSEnv()
+	dictStackLimit = probeDictStackLimit()
 	full, _ := c02Pool()
 	bm := newPairBitmap()
 	nCases := r.N(40000, 2000000)
@@ -264,12 +278,21 @@ func runC05(r *rt.Runner) {
 			i2 := postscript.NewInterpreter()
 			i2.MaxOps = 2_000_000
 			err2 := i2.Execute(bytes.NewReader(A.Bytes()))
+			fullStack := false
 			if err2 == nil {
 				i2.Stack = append(i2.Stack, nil) // currentfile
 				i2.Stack = i2.Stack[:len(i2.Stack)-1]
 				k := len(i2.DictStack)
-				i2.DictStack = append(i2.DictStack, i2.SystemDict)
-				err2 = i2.Execute(bytes.NewReader(plain))
+				fullStack = k >= dictStackLimit
+				if fullStack {
+					// no room for the system dictionary: pushing it is a
+					// dictstackoverflow, as for begin
+					err2 = errDictStackFull
+					c.Count("sections started on a full dictionary stack")
+				} else {
+					i2.DictStack = append(i2.DictStack, i2.SystemDict)
+					err2 = i2.Execute(bytes.NewReader(plain))
+				}
 				if err2 == io.EOF {
 					err2 = nil // closefile at the top level of a separate call
 				}
@@ -314,6 +337,12 @@ func runC05(r *rt.Runner) {
 			}
 			if err1 != nil {
 				c.Count("sections whose plaintext fails (same error both ways)")
+			}
+			if fullStack {
+				// whether the refused eexec leaves its file operand on the
+				// stack is not part of the property: only the error is compared
+				c.Nontrivial(file.Bytes(), func() string { return "section on a full dictionary stack: " + errName(err1) })
+				return
 			}
 			// NumOps differs legitimately (eexec itself, currentfile); DSC lists
 			// are equal because no DSC lines are generated inside sections
